@@ -30,13 +30,13 @@ import (
 )
 
 type Result struct {
-	Coq        string `json:"coq"`
-	Class      string `json:"class"`
-	Nontrivial bool   `json:"nontrivial"`
-	Input      *Input `json:"input"`
-	Obs        []Obs  `json:"obs"`
-	Viol       string `json:"viol,omitempty"`
-	ViolWhat   string `json:"viol_what,omitempty"`
+	Coq        string   `json:"coq"`
+	Class      string   `json:"class"`
+	Nontrivial bool     `json:"nontrivial"`
+	Input      *Input   `json:"input"`
+	Obs        []Obs    `json:"obs"`
+	Viol       string   `json:"viol,omitempty"`
+	ViolWhat   string   `json:"viol_what,omitempty"`
 	Counts     []string `json:"counts,omitempty"`
 }
 
